@@ -4,7 +4,7 @@ CONSTANTS
   MaxNeg = 0
   MaxPos = 0
   NCols = 6
-  Datasets = {"all", "wrap", "single", "empty", "ties0"}
+  Datasets = {"all", "empty", "ties0"}
   Vias = {"set", "imp"}
   Classes = {"W"}
   Depth = 2
